@@ -214,6 +214,8 @@ class ClipSim:
                 return []
             if opname in ('apply', 'clip', 'reclip'):
                 seam = rng.choice(['write', 'write', 'write', 'mfopen', 'read', 'read'])
+                if world['materialise'] != 'memory' and rng.random() < 0.35:
+                    seam = 'read'
                 if seam == 'read':
                     # the source is read while it is clipped: a lazily opened file (each variable, each connectivity table)
                     # or dask chunks; in-memory worlds never cross this seam
